@@ -80,7 +80,7 @@ def replay(d):
 
 def check(run):
     run.level = "other"
-    run.deductive(PC.MODULES)
+    PC.deductive(run)
     rnd = random.Random(run.seed)
     fails = {}
     cases = 0
